@@ -3,5 +3,6 @@ REGISTRY = {
     "C02": "c02_evidence",
     "C04": "c04_store",
     "C10": "c10_batch",
+    "C16": "c16_resampling",
     "C17": "c17_threshold",
 }
